@@ -483,11 +483,33 @@ def oracle(case, impl, model, crash):
         exp = reference(l)
         if exp is not None and o != exp:
             return True, "RFC 8259 conformance: python3 json gives %s, the decoder gives %s for %s" % (exp[:80], o[:80], l[:120])
+        t = l.split()
+        if t[0] == "chunks" and len(t) >= 2 and " " in o:
+            r = py_expect(unhex(t[1]))
+            if r and o.split(" ", 1)[1] != r[1]:
+                return True, "RFC 8259 conformance (chunked feeding): python3 json gives %s, the parser gives %s for %s" % (r[1][:80], o[:80], l[:120])
     cv = chunk_violation(case, body)
     if cv:
         return True, "chunk independence: " + cv
     return False, ("model and implementation differ on a text the property does not constrain (malformed or XDL-only syntax); "
                    "the model is no longer a description of the code, so parse_safe/chunk_indep no longer apply to it")
+
+
+def simplify_line(line):
+    """smaller candidates for one op line (used by the shrinker): drop halves / single bytes of the text"""
+    t = line.split()
+    if len(t) < 2 or t[0] not in ("dec", "xdec", "prefix", "chunks", "feed") or t[1] == "-":
+        return
+    b = unhex(t[1])
+    n = len(b)
+    cands = []
+    if n > 1:
+        cands += [b[:n // 2], b[n // 2:], b[:n - 1], b[1:]]
+    if n > 8:
+        q = n // 4
+        cands += [b[:q] + b[2 * q:], b[:2 * q] + b[3 * q:], b[q:], b[:3 * q]]
+    for c in cands:
+        yield " ".join([t[0], hexs(c)] + t[2:])
 
 
 def extra(ctx):
@@ -570,8 +592,21 @@ def distribution(cases):
 EXHAUSTIVE = {"quick": "all 2-chunk cuts of every text of <= 48 bytes; every prefix of the listed seed documents",
               "thorough": "all 2-chunk cuts of every text of <= 300 bytes (<= 120 for mutants); every prefix of the listed seed documents"}
 
-LEVEL_TEXT = ("Proved in Lean 4 about the executable model of XdlParser (lean/AslModel/Xdl.lean, a transcription of the comment filter, "
-              "the 21-state switch with push-back, value_end/put/begin/end and value()/decode()): see LEVEL_NOTE for the exact list. "
-              "The model is tied to the code on every run by the correspondence check under ASan (whole decodes, chunked feeding, prefixes; "
-              "grammar-generated JSON/XDL, mutations, raw bytes) and python3 json adjudicates every RFC 8259 document generated.")
-LEVEL_NOTE = "(filled in below)"
+LEVEL_TEXT = ("Proved in Lean 4, for ALL byte strings / chunkings / documents, about the executable model of XdlParser "
+              "(lean/AslModel/Xdl.lean: the comment filter, the 21-state switch with its one-byte push-back, ERR by return vs break, "
+              "value_end/put/begin/end callbacks, the \\u accumulator with strtoul and utf16toUtf8, the XDL_MAX_DEPTH check, value(), decode()): "
+              "parse_safe/step_safe/decode_total/value_reads_in_bounds (no Stack::top()/pop() on an empty stack, no String index past the "
+              "terminator, no byte dispatched more than twice, on every input in every chunking); chunk_indep/chunk_indep_poll (any partition of a "
+              "NUL-free text gives the same value(), also when polled between chunks); rfc_accept/rfc_accept_chunked (every RFC 8259 text - grammar "
+              "written from the RFC as an inductive relation: any white space, every number spelling, every escape incl. \\/ and surrogate pairs, "
+              "duplicate keys, nesting <= 1000 - decodes to the value it denotes). The model is tied to the code on every run by the "
+              "correspondence check under ASan/UBSan (whole decodes, chunked feeding, prefixes; grammar-generated JSON/XDL, mutations, raw bytes) "
+              "and python3 json adjudicates every RFC 8259 document and prefix generated.")
+LEVEL_NOTE = ("Not a theorem yet: prefix_reject (a proper prefix of a top-level array/object/string is rejected) - stated as `def prefix_reject_full`, "
+              "validated by K + python oracle on every prefix of the seed documents and sampled prefixes of all generated documents. "
+              "XDL-only syntax (bare identifiers, class names, comments, newline separators) has no independent grammar: covered by "
+              "parse_safe/chunk_indep and K only. Hypotheses carried by K rather than proved: glibc atof = correctly rounded (AslModel/Strtod.lean), "
+              "strtoul on the 4-byte \\u accumulator, C locale, Var/String/Array container semantics (C01-C04). "
+              "Fixed in /repo while building this check: 88049f3 ('/' in quoted keys), c9789c6 (stack overflow in ~Var on 300000-deep nesting; "
+              "decoder now rejects nesting > 1000). Known non-conformances outside the property as worded (documented, K-modelled): "
+              "trailing commas, several top-level values (last wins), control characters in quoted keys and \\u escapes with non-hex digits are accepted.")
